@@ -23,3 +23,47 @@ Theorem C20_tagged : forall (sha256 : bytes -> bytes) data tag,
   stag sha256 tag data = tagged_hash sha256 data tag.
 Proof. intros. split; reflexivity. Qed.
 Print Assumptions C20_tagged.
+
+(* ---- BIP340 over the abstract curve (premise curve_laws, Spec/Curve.v) ---- *)
+From BU Require Import Model.EC Spec.Curve Proofs.CurveFacts.
+
+(* signing yields a signature for every key in [1, n-1], message and auxiliary randomness: the only
+   failure is a zero nonce (negligible); in particular the internal verification never rejects *)
+Theorem C20_sign_total : forall p n add lift G on, curve_laws p n add lift G on ->
+  forall (sha256 : bytes -> bytes) msg key aux, n < 2 ^ 256 -> p < 2 ^ 256 ->
+  length msg = 32%nat -> length aux = 32%nat -> wf_bytes key -> length key = 32%nat -> 1 <= be_val key <= n - 1 ->
+  schnorr_sign sha256 p n add lift G msg key aux = None ->
+  exists px py, full_pubkey_gen n add G key = Some (px, py) /\
+    let d := if Z.even py then be_val key else n - be_val key in
+    be_val (stag sha256 "BIP0340/nonce" (xor_bytes (be_bytes 32 d) (stag sha256 "BIP0340/aux" aux) ++ be_bytes 32 px ++ msg)) mod n = 0.
+Proof. exact schnorr_sign_total. Qed.
+Print Assumptions C20_sign_total.
+
+Theorem C20_sign_verifies : forall p n add lift G (sha256 : bytes -> bytes) msg key aux sig,
+  schnorr_sign sha256 p n add lift G msg key aux = Some sig ->
+  exists px py, full_pubkey_gen n add G key = Some (px, py) /\
+    schnorr_verify sha256 p n add lift G msg (be_bytes 32 px) sig = Some true /\ length sig = 64%nat.
+Proof. exact schnorr_sign_verifies. Qed.
+Print Assumptions C20_sign_verifies.
+
+(* verification rejects r >= p, s >= n and x-only keys that are not on the curve *)
+Theorem C20_verify_ranges : forall p n add lift G (sha256 : bytes -> bytes) msg pk sig,
+  schnorr_verify sha256 p n add lift G msg pk sig = Some true ->
+  be_val (firstn 32 sig) < p /\ be_val (skipn 32 sig) < n /\ lift (be_val pk) <> None.
+Proof. exact schnorr_verify_ranges. Qed.
+Print Assumptions C20_verify_ranges.
+
+(* for given R, key and message at most one s verifies: any altered s is rejected *)
+Theorem C20_s_unique : forall p n add lift G on, curve_laws p n add lift G on ->
+  forall (sha256 : bytes -> bytes) msg pk rb sb sb', length rb = 32%nat -> length sb = 32%nat -> length sb' = 32%nat ->
+  wf_bytes sb -> wf_bytes sb' ->
+  schnorr_verify sha256 p n add lift G msg pk (rb ++ sb) = Some true ->
+  schnorr_verify sha256 p n add lift G msg pk (rb ++ sb') = Some true -> sb = sb'.
+Proof. exact schnorr_s_unique. Qed.
+Print Assumptions C20_s_unique.
+
+(* the 256-step double-and-add of point_mul computes the scalar multiple *)
+Theorem C20_point_mul : forall p n add lift G on, curve_laws p n add lift G on ->
+  forall P k, on P -> 0 <= k < 2 ^ 256 -> point_mul_with add P k = smul p add k P.
+Proof. exact point_mul_smul. Qed.
+Print Assumptions C20_point_mul.
